@@ -106,6 +106,27 @@ theorem C12_malformed_ignored (s : Bytes)
     obtain ⟨ds, u, d, e, h1, h8, hd, hu, _⟩ := (C12_decode_iff s n).1 hr
     exact absurd ⟨ds, u, e, h1, h8, hd, by simp [hu]⟩ h
 
+/-- A value that contains a space, a tab or a sign ANYWHERE (padding included) is malformed, hence ignored: the decoder
+    never strips white space. So the carriage decides what padding means — `_metadata[grpc-timeout]=%20400m` reaches the
+    decoder as sent and is ignored, a header value reaches it after net/http's OWS stripping (`raw` cases of area c12e2e;
+    seeded change C12-m10 trimmed the query values). -/
+theorem C12_padding_is_malformed (s : Bytes) (b : UInt8) (hb : b ∈ s)
+    (hw : b = 32 ∨ b = 9 ∨ b = 43 ∨ b = 45) : decodeTimeout s = none := by
+  cases hr : decodeTimeout s with
+  | none => rfl
+  | some n =>
+    obtain ⟨ds, u, d, e, _, _, hd, hu, _⟩ := (C12_decode_iff s n).1 hr
+    subst e
+    rcases List.mem_append.1 hb with hin | hin
+    · have := hd b hin
+      rcases hw with rfl | rfl | rfl | rfl <;> simp [isDigit] at this
+    · have hbu : b = u := by simpa using hin
+      subst hbu
+      rcases hw with rfl | rfl | rfl | rfl <;> simp [specUnit] at hu
+
+example : decodeTimeout [32, 52, 48, 48, 109] = none ∧ decodeTimeout [52, 48, 48, 109, 32] = none ∧
+    decodeTimeout [52, 48, 48, 109] = some 400000000 := by decide
+
 /-- The product the code computes in int64 never overflows (so `Int` models it exactly),
     and the decoded duration is never negative (no instantly-expired calls from a valid header). -/
 theorem C12_no_overflow (s : Bytes) (n : Int) (h : decodeTimeout s = some n) :
